@@ -43,6 +43,10 @@ def gen(tier, seed):
         "the coefficient vectors handed to the native engine (per forward / reverse half: reactant coefficients and net change) are those of the reaction, also when a species stands on both sides of the arrow (catalyst, autocatalysis, partial consumption); coefficients symbolic in small ranges, 4 reaction shapes, 3 engine kinds",
         "q: int, a: int, b: int, c: int, d: int, opt: int", viol="the stoichiometric vectors handed to the engine are not the reaction's")
     conds[-1]["enumerate"] = True
+    L.extend(["def h_abi_k_mixed(u1: int, opt: int, g: int) -> bool:", '    """', "    pre: 0 <= u1 <= 10 and 0 <= opt <= 2 and 0 <= g <= 1", "    post: _", '    """',
+              "    from harness.c04lib import abi_k_mixed", "    return abi_k_mixed(u1, (u1 * 5 + 2) % 11, opt, g)", ""])
+    conds.append({"fn": "h_abi_k_mixed", "what": "the per-environment rate constants of a reaction (orders 1 and 2, three environments, entries written in different units) reach the native engine with their physical values, entry by entry",
+                  "sig": "c19-abi-rate-constants", "structure": "reactions", "enumerate": True, "viol": "the rate-constant vector handed to the engine is not the per-environment constants of the reactions"})
     for form in (0, 1):
         add("K_mixed_%d" % form, "c19-K", "K_mixed_ok(a, b, %d)" % form, ["pre: 1e-6 < a < 1e6 and 0 <= b < 1e6"],
             "equilibrium constant when only %s is a per-environment dictionary (kr = 0 gives None)" % ("kr" if form == 0 else "kf"), "a: float, b: float")
